@@ -1,1 +1,53 @@
-From OP Require Import model.C18.
+(* C18 Instruction lines decompose into exactly their parts. Statements only. *)
+From Coq Require Import ZArith List Bool.
+From OP Require Import lib.Obs gen.Grammar model.C18 proofs.C18_proofs.
+Import ListNotations.
+Open Scope Z_scope.
+
+(* For ANY well-formed line -- indentation, optional threshold digits[.digits], a name that starts with
+   a name character (not a digit when there is no threshold) and has no ':' or '#', an optional
+   non-empty argument without '#', an optional comment -- the recogniser recovers exactly those parts
+   (the name keeps the blank before a comment, the argument keeps the blank before a comment: that is
+   what the regex groups capture and what _parse_line strips afterwards). *)
+Theorem C18_line_roundtrip : forall i thr name arg comment,
+  wf_line thr name arg comment ->
+  split_line (render i thr name arg comment) = expected_line i (option_map thr_text thr) name arg comment.
+Proof. exact split_line_roundtrip. Qed.
+Print Assumptions C18_line_roundtrip.
+
+(* 'tag operator value [unit]': for every operator spelling of the generated tables, every supported
+   unit (regenerated from units.py) and a panel of tags (incl. inner space, non-ASCII) and numeric value
+   shapes (sign, fraction, bare fraction, exponent), tag, operator, value and unit are recovered. The
+   sweep is finite in tags and values: it is a proof about the generated operator and unit tables, and
+   a test (not a theorem) in the tag and value dimensions -- labelled partial there. *)
+Theorem C18_tov_roundtrip_partial : forall tag op v u,
+  In tag sweep_tags -> In op condition_operators -> In v sweep_values ->
+  match u with Some x => In x supported_units | None => True end ->
+  tov_eqb (parse_tov condition_operators (render_tov tag op v u)) (expected_tov tag op v u) = true.
+Proof. intros tag op v u. exact (tov_sweep_spec condition_operators tag op v u sweep_conditions). Qed.
+Print Assumptions C18_tov_roundtrip_partial.
+
+Theorem C18_assignment_roundtrip_partial : forall tag op v u,
+  In tag sweep_tags -> In op assignment_operators -> In v sweep_values ->
+  match u with Some x => In x supported_units | None => True end ->
+  tov_eqb (parse_tov assignment_operators (render_tov tag op v u)) (expected_tov tag op v u) = true.
+Proof. intros tag op v u. exact (tov_sweep_spec assignment_operators tag op v u sweep_assignments). Qed.
+Print Assumptions C18_assignment_roundtrip_partial.
+
+(* every character of every supported unit belongs to the unit class conditions use *)
+Theorem C18_units_in_class : forallb (forallb is_unit_char) supported_units = true.
+Proof. exact units_in_class. Qed.
+Print Assumptions C18_units_in_class.
+
+(* the monitor used on implementation output is satisfied by the model on every well-formed line *)
+Theorem C18_monitor_sound_lines : forall i thr name arg comment, wf_line thr name arg comment ->
+  holds_b (QLineWF i (option_map thr_text thr) name arg comment)
+          (run (QLineWF i (option_map thr_text thr) name arg comment)) = true.
+Proof. exact monitor_line. Qed.
+Print Assumptions C18_monitor_sound_lines.
+
+Example C18_nonvacuous :
+  wf_line (Some ([49; 50], Some [53; 48])) [87; 97; 116; 99; 104] (Some [88; 32; 62; 32; 49]) (Some [99]) /\
+  split_line (render 4 (Some ([49; 50], Some [53; 48])) [87; 97; 116; 99; 104] (Some [88; 32; 62; 32; 49]) (Some [99]))
+  = PInst 4 (Some [49; 50; 46; 53; 48]) [87; 97; 116; 99; 104] (Some [88; 32; 62; 32; 49; 32]) true (Some [99]).
+Proof. split; [|vm_compute; reflexivity]. constructor; vm_compute; intuition discriminate. Qed.
